@@ -906,6 +906,21 @@ func (fc *FnCtx) selectInstr(x *ssa.Select) {
 		tv = append(tv, Val{t: n, ty: tt.At(i).Type()})
 	}
 	fc.vals[x] = Val{ty: tt, tuple: tv}
+	// ghost receive counters
+	for k, st := range x.States {
+		if st.Dir != types.RecvOnly {
+			continue
+		}
+		if owner, gname, ok := fc.chanOwner(st.Chan); ok {
+			gv := g.cs.Ghosts[gname]
+			if gv == nil {
+				cxFail("chancount: unknown ghost variable %s", gname)
+			}
+			env := fc.envAt(fc.cur, nil)
+			cur := env.ghostVal(gv)
+			g.set(fc.cur, "G|"+gname, fmt.Sprintf("(ite (= %s %d) (store %s %s (+ (select %s %s) 1)) %s)", idx, k, cur.t, owner, cur.t, owner, cur.t))
+		}
+	}
 	g.note("select: arbitrary ready case, received values arbitrary")
 	fc.syncPoint("select")
 }
@@ -940,4 +955,27 @@ func (fc *FnCtx) chanEvent(ch ssa.Value, v Val, ins ssa.Instruction) {
 	cur := env.ghostVal(gv)
 	mk, ln, ar := seqFns(cur.gs)
 	g.set(fc.cur, "G|"+gname, fmt.Sprintf("(%s (+ (%s %s) 1) (store (%s %s) (%s %s) %s))", mk, ln, cur.t, ar, cur.t, ln, cur.t, v.t))
+}
+
+// chanOwner: the channel operand was loaded from field f of object o and Type.f is declared `chancount`.
+func (fc *FnCtx) chanOwner(ch ssa.Value) (string, string, bool) {
+	ld, ok := ch.(*ssa.UnOp)
+	if !ok {
+		return "", "", false
+	}
+	fa, ok := ld.X.(*ssa.FieldAddr)
+	if !ok {
+		return "", "", false
+	}
+	T := fa.X.Type().Underlying().(*types.Pointer).Elem()
+	n, ok := T.(*types.Named)
+	if !ok || n.Obj().Pkg() == nil {
+		return "", "", false
+	}
+	st := T.Underlying().(*types.Struct)
+	gname, ok := fc.g.cs.ChanCounts[n.Obj().Pkg().Path()+"::"+n.Obj().Name()+"."+st.Field(fa.Field).Name()]
+	if !ok {
+		return "", "", false
+	}
+	return fc.term(fa.X).t, gname, true
 }
